@@ -28,23 +28,28 @@ def s2b(v):
     return v.encode("utf-8") if isinstance(v, str) else bytes(v)
 
 
-def canon_val(v, commands):
+import sys
+sys.setrecursionlimit(20000)
+
+
+def canon_val(v, commands, sort=False):
     if isinstance(v, commands.Command):
-        return "t:" + canon_node(v, commands)
+        return "t:" + canon_node(v, commands, sort)
     if isinstance(v, list):
         if v and all(isinstance(x, commands.Command) for x in v):
-            return "T:[" + " ".join(canon_node(x, commands) for x in v) + "]"
+            return "T:[" + " ".join(canon_node(x, commands, sort) for x in v) + "]"
         return "l:" + "+".join(hx(s2b(x)) for x in v)
     if isinstance(v, (str, bytes)):
         return "s:" + hx(s2b(v))
     return "o:" + hx(repr(v).encode())
 
 
-def canon_node(c, commands):
-    kv = lambda d: ",".join("%s=%s" % (hx(s2b(k)), canon_val(v, commands)) for k, v in d.items())
+def canon_node(c, commands, sort=False):
+    items = (lambda d: sorted(d.items())) if sort else (lambda d: d.items())
+    kv = lambda d: ",".join("%s=%s" % (hx(s2b(k)), canon_val(v, commands, sort)) for k, v in items(d))
     return "(%s a{%s} e{%s} c[%s] h[%s])" % (
         c.name, kv(c.arguments), kv(c.extra_arguments),
-        " ".join(canon_node(x, commands) for x in c.children),
+        " ".join(canon_node(x, commands, sort) for x in c.children),
         ",".join(hx(s2b(h)) for h in getattr(c, "hash_comments", [])))
 
 
@@ -104,7 +109,7 @@ def run_parser(text, want="tree", parser=None):
                 return "accept " + hx(out.getvalue().encode("utf-8")), p, ""
             except BaseException as e:  # noqa
                 return "printcrash", p, "%s: %s" % (type(e).__name__, e)
-        return "accept " + " ".join(canon_node(c, commands) for c in p.result), p, ""
+        return "accept " + " ".join(canon_node(c, commands, want == "sorted") for c in p.result), p, ""
     if ok is False:
         try:
             cat, payload = categorise(p.error)
